@@ -41,7 +41,10 @@ type Pointer struct {
 }
 
 type StructVal struct{ fields []Value }
-type ArrayVal struct{ elems []Value }
+type ArrayVal struct {
+	elems  []Value
+	origin *Term // byte array whose contents are exactly this string term (set by crypto stubs)
+}
 
 type SliceVal struct {
 	arr   *Object // holds *ArrayVal; nil for nil slice
@@ -189,7 +192,7 @@ func (e *Exec) zero(t types.Type) Value {
 				es[i] = z
 			}
 		}
-		return &ArrayVal{es}
+		return &ArrayVal{elems: es}
 	case *types.Slice:
 		return &SliceVal{isNil: true}
 	case *types.Interface:
@@ -244,7 +247,7 @@ func setAt(root Value, path []int, nv Value) Value {
 		es := make([]Value, len(a.elems))
 		copy(es, a.elems)
 		es[i] = setAt(a.elems[i], path[1:], nv)
-		return &ArrayVal{es}
+		return &ArrayVal{elems: es}
 	}
 	panic(fmt.Sprintf("setAt: bad aggregate %T", root))
 }
@@ -304,7 +307,7 @@ func (e *Exec) sliceElems(s *SliceVal) []Value {
 func (e *Exec) mkSlice(elemT types.Type, elems []Value) *SliceVal {
 	es := make([]Value, len(elems))
 	copy(es, elems)
-	obj := e.newObject(types.NewArray(elemT, int64(len(es))), &ArrayVal{es}, "slice")
+	obj := e.newObject(types.NewArray(elemT, int64(len(es))), &ArrayVal{elems: es}, "slice")
 	return &SliceVal{arr: obj, off: 0, n: len(es), cap: len(es)}
 }
 
@@ -314,6 +317,11 @@ func (e *Exec) bytesTerm(v Value) *Term {
 	case *BytesVal:
 		return b.s
 	case *SliceVal:
+		if b.arr != nil && !b.isNil {
+			if arr, ok := b.arr.val.(*ArrayVal); ok && arr.origin != nil && b.off == 0 && b.n == len(arr.elems) {
+				return arr.origin
+			}
+		}
 		var parts []*Term
 		for _, x := range e.sliceElems(b) {
 			parts = append(parts, mkFromCode(e.byteToCode(x.(*Term))))
